@@ -154,7 +154,7 @@ func genHTTP(t *rapid.T) HTTPL {
 	var l HTTPL
 	nh := rapid.IntRange(1, 4).Draw(t, "nhosts")
 	for i := 0; i < nh; i++ {
-		h := rapid.SampledFrom(hostPool).Draw(t, "host")
+		h := genHostName(t) // the host-value classes of hosts_test.go (the fixed pool among them)
 		if rapid.Bool().Draw(t, "host-has-port") {
 			h += ":" + rapid.SampledFrom(goodPorts).Draw(t, "host-port")
 		}
@@ -174,7 +174,8 @@ func genHTTP(t *rapid.T) HTTPL {
 	if rapid.Bool().Draw(t, "proxy") {
 		l.ProxyEnabled = true
 		l.ProxyType = rapid.SampledFrom([]string{"http", "https"}).Draw(t, "ptype")
-		l.ProxyHost = rapid.SampledFrom([]string{"proxy.corp.example", "10.0.0.2"}).Draw(t, "phost")
+		// (the proxy host is packed as written: HEAD resolves interface names in Hosts only)
+		l.ProxyHost = rapid.SampledFrom(append([]string{"proxy.corp.example", "10.0.0.2", "proxy.corp.example", "10.0.0.2"}, ifaceWithV4...)).Draw(t, "phost")
 		l.ProxyPort = rapid.SampledFrom([]string{"8080", "3128"}).Draw(t, "pport")
 		if rapid.Bool().Draw(t, "pcreds") {
 			l.ProxyUser = rapid.SampledFrom([]string{"svc-proxy", "DOM\\üser"}).Draw(t, "puser")
@@ -188,7 +189,7 @@ func genHTTP(t *rapid.T) HTTPL {
 	return l
 }
 
-var spoils = []string{"methode-get", "portconn-nan", "portbind-nan", "hostport-nan", "port-range", "hours-bad", "hours-grey", "sleep-nan", "jitter-nan", "jitter-range"}
+var spoils = []string{"methode-get", "portconn-nan", "portbind-nan", "hostport-nan", "port-range", "hours-bad", "hours-grey", "sleep-nan", "jitter-nan", "jitter-range", "host-ipv6", "host-ipv6-numeric"}
 
 func spoil(t *rapid.T, c *CaseA, what string) {
 	switch what {
@@ -203,6 +204,12 @@ func spoil(t *rapid.T, c *CaseA, what string) {
 		i := rapid.IntRange(0, len(c.HTTP.Hosts)-1).Draw(t, "which-host")
 		h := strings.Split(c.HTTP.Hosts[i], ":")[0]
 		c.HTTP.Hosts[i] = h + ":" + rapid.SampledFrom(append([]string{""}, nanPorts...)).Draw(t, "nan")
+	case "host-ipv6":
+		i := rapid.IntRange(0, len(c.HTTP.Hosts)-1).Draw(t, "which-host")
+		c.HTTP.Hosts[i] = rapid.SampledFrom(ipv6Rejected).Draw(t, "ipv6")
+	case "host-ipv6-numeric":
+		i := rapid.IntRange(0, len(c.HTTP.Hosts)-1).Draw(t, "which-host")
+		c.HTTP.Hosts[i] = rapid.SampledFrom(ipv6NumericGroup).Draw(t, "ipv6")
 	case "port-range":
 		p := rapid.SampledFrom(rangePorts).Draw(t, "range")
 		switch rapid.IntRange(0, 1).Draw(t, "where") {
@@ -331,6 +338,8 @@ func portOf(s string) (uint32, string) {
 	return uint32(v), ""
 }
 
+func portIs(s string) bool { _, why := portOf(s); return why == "" }
+
 type expectation struct {
 	MustFail []string // reasons why no payload may be produced
 	Grey     bool     // tolerated either way (grey working hours)
@@ -373,6 +382,11 @@ func expect(c CaseA) expectation {
 		for _, h := range c.HTTP.Hosts {
 			if i := strings.Index(h, ":"); i >= 0 {
 				if _, why := portOf(h[i+1:]); why != "" {
+					if f := strings.SplitN(h[i+1:], ":", 2); len(f) == 2 && portIs(f[0]) {
+						// more than one ':' and a number between the first two (an IPv6
+						// literal such as 2001:470::1): same verdict, a name of its own
+						why = "extra-colon-after-number"
+					}
 					e.MustFail = append(e.MustFail, "host-port-"+why)
 				}
 			} else {
@@ -518,8 +532,18 @@ func verifyFields(c CaseA, raw []byte, report func(*core.Violation)) {
 				name, port, q = h[:j], h[j+1:], "own-port"
 			}
 			wp, _ := portOf(port)
-			if d.Hosts[i].Host.S != name {
-				bad("Transport.Hosts", "name", "host %d: Demon reads %q, listener has %q", i, d.Hosts[i].Host.S, h)
+			// a host that is the name of an interface of this machine stands for that
+			// interface's IPv4 address (looked up by the harness itself); anything else
+			// is packed as written
+			if want := wantHostName(name); d.Hosts[i].Host.S != want {
+				nq := "name"
+				if want != name {
+					nq = "name|interface-name"
+					if q == "own-port" {
+						nq += "+port"
+					}
+				}
+				bad("Transport.Hosts", nq, "host %d: Demon reads %q, listener has %q (expected host %q)", i, d.Hosts[i].Host.S, h, want)
 			}
 			if d.Hosts[i].Port != wp {
 				bad("Transport.Hosts", "port|"+q, "host %d (%q): Demon reads port %d, expected %d (PortConn %q, PortBind %q)", i, h, d.Hosts[i].Port, wp, l.PortConn, l.PortBind)
@@ -749,6 +773,10 @@ func classifyA(c CaseA) core.Class {
 		cl.Labels = append(cl.Labels, "transport:http", fmt.Sprintf("hosts:%d", len(l.Hosts)), "host-ports:"+hp, fmt.Sprintf("portconn-set:%v", l.PortConn != ""),
 			fmt.Sprintf("headers:%d", len(l.Headers)), fmt.Sprintf("host-header:%v", l.HostHeader != ""), fmt.Sprintf("uris:%d", len(l.Uris)),
 			fmt.Sprintf("proxy:%v", l.ProxyEnabled), "rotation:"+l.HostRotation, fmt.Sprintf("secure:%v", l.Secure), fmt.Sprintf("hours-set:%v", l.WorkingHours != ""))
+		cl.Labels = append(cl.Labels, hostLabels(l.Hosts)...)
+		if l.ProxyEnabled && isIface(l.ProxyHost) {
+			cl.Labels = append(cl.Labels, "proxy-host:interface-name")
+		}
 		tr = fmt.Sprintf("http|%s|hh+h=%v", hp, l.HostHeader != "" && len(l.Headers) > 0)
 	}
 	nd := nonDefaults(o)
@@ -771,11 +799,11 @@ func classifyA(c CaseA) core.Class {
 func TestC13a(t *testing.T) {
 	core.Run(t, core.Spec[CaseA]{
 		Property: "C13", Sub: "a",
-		Rule: "build options as the client sends them (every combo-box choice of Sleep Technique, Sleep Jmp Gadget, Proxy Loading, Amsi/Etw Patch, Injection Alloc/Execute; both check boxes; Sleep 0..2^31-1 and Jitter 0..100 incl. boundaries; spawn paths incl. spaces and non-BMP characters) x listener (HTTP: 1-4 hosts with/without ':port', PortConn set/unset with PortBind fallback, TLS, user agent, 0-4 headers +/- host header, 0-4 URIs, proxy with/without credentials, method spelling, rotation, kill date, working hours; SMB: pipe name, kill date, working hours), 30% spoiled with one or two unencodable settings (method GET, non-numeric / out-of-range port in PortConn, PortBind or a host, malformed / out-of-range / inverted working hours, non-numeric sleep or jitter, jitter outside 0..100). Builder driven as dispatch.go does; oracle: PatchConfig() bytes parsed by a transcription of DemonConfig() equal the chosen options (integers as the Demon's C headers define them) and listener settings; a second Builder on the same listener yields identical bytes and the listener's config stays deep-equal to a copy; unencodable => error and no bytes. Non-trivial: >=2 options away from the client's defaults, or an unencodable setting; distinct = (outcome class, technique, gadget, #non-defaults, transport shape)",
+		Rule: "build options as the client sends them (every combo-box choice of Sleep Technique, Sleep Jmp Gadget, Proxy Loading, Amsi/Etw Patch, Injection Alloc/Execute; both check boxes; Sleep 0..2^31-1 and Jitter 0..100 incl. boundaries; spawn paths incl. spaces and non-BMP characters) x listener (HTTP: 1-4 hosts with/without ':port', PortConn set/unset with PortBind fallback, TLS, user agent, 0-4 headers +/- host header, 0-4 URIs, proxy with/without credentials, method spelling, rotation, kill date, working hours; SMB: pipe name, kill date, working hours), 30% spoiled with one or two unencodable settings (method GET, non-numeric / out-of-range port in PortConn, PortBind or a host, malformed / out-of-range / inverted working hours, non-numeric sleep or jitter, jitter outside 0..100). Builder driven as dispatch.go does; oracle: PatchConfig() bytes parsed by a transcription of DemonConfig() equal the chosen options (integers as the Demon's C headers define them) and listener settings; a second Builder on the same listener yields identical bytes and the listener's config stays deep-equal to a copy; unencodable => error and no bytes. Non-trivial: >=2 options away from the client's defaults, or an unencodable setting; distinct = (outcome class, technique, gadget, #non-defaults, transport shape). HOST VALUES (every sub-check that generates a listener draws them, labels host:<class>[+port]): the host part of every entry of Hosts is one of {name / IPv4 address of the fixed pool 8/20 | the NAME of a network interface this machine really has, with an IPv4 address (net.Interfaces() at run time; e.g. lo, eth0) 4/20 | such a name in another letter case (LO, Lo) 2/20 | a proper prefix, suffix or extension of such a name (l, o, lo0, lox, xlo, lo-1, lolo) 2/20 | the name of an interface without IPv4 address 1/20 | an IPv4 literal incl. 0.0.0.0, 255.255.255.255 and the interfaces' own addresses 2/20 | a pool name or an interface name with a trailing dot 1/20}, each with and without ':port' (half each), combined with the PortConn / PortBind fallback; the proxy host is an interface name in 1 case of 3 or so. Oracle for a host (HEAD's documented rule): an entry whose host part is byte-exactly the name of an interface with an IPv4 address is packed as that interface's first IPv4 address - looked up by the harness with net.InterfaceByName(name).Addrs() at the moment of the comparison - with the entry's own port, or the fallback port if it has none; every other host part (other letter case, prefix/extension, trailing dot, interface without IPv4, literal) is packed as written; order as in the listener. The proxy host is always packed as written. Two more ways to spoil a listener: an IPv6 literal as host entry, with or without brackets and port (::1, fe80::1, 2001:db8::1, [::1]:443, ...): the text after the first ':' is not a port number, so the build must fail (label host:ipv6*); and an IPv6 literal whose second group is a decimal number (2001:470::1, [2001:470::1]:443; label ...|numeric-second-group): the same verdict under the reason host-port-extra-colon-after-number",
 		Gen:  genA, Check: checkA, Classify: classifyA,
 		Assumptions: []string{
 			"option strings are exactly the choices the client's payload dialog offers; the config document has the client's shape (all keys present)",
-			"hosts are names or IPv4 addresses that are not names of local network interfaces (the builder resolves interface names)",
+			"host entries are names, IPv4 literals or names of this machine's network interfaces (the builder's rule: an interface name stands for the interface's first IPv4 address; names compare exactly, as net.InterfaceByName does); the set of interfaces and their addresses does not change during a run; interface names containing ':' ',' or a blank are not used",
 			"without sleep obfuscation the jump gadget and stack duplication are unused by the Demon: the chosen value or 0 is accepted",
 			"a listener without headers may get the builder's documented default header 'Content-type: */*'; without URIs the URI is '/'",
 			"a port outside 1..65535 counts as unencodable (the Demon hands it to WinHttpConnect as a 16-bit INTERNET_PORT)",
